@@ -8,6 +8,11 @@ CONSTANTS
   Void = TRUE
   AllowDestroy = TRUE
   AllowThrow = FALSE
-INVARIANTS TypeOK NeverBothNonEmpty ExactlyOnceDelivery DeliveredInOrder ItemsSorted WaitersFIFO NoLostWaiter DestroyCancels
+  Obj = FALSE
+  Forms = {"zero"}
+  SingleItem = FALSE
+  SingleWaiter = FALSE
+  MaxRefuse = 0
+INVARIANTS TypeOK NeverBothNonEmpty SlotCapacity ExactlyOnceDelivery ValueIntact DeliveredInOrder ItemsSorted WaitersFIFO NoLostWaiter DestroyCancels
 PROPERTY AllResolved
 CHECK_DEADLOCK FALSE
